@@ -106,6 +106,18 @@ def small_int_alphabet(wire: str) -> List[int]:
     return out
 
 
+def component_raws(wire: str) -> List[int]:
+    lo, hi = int_range(wire)
+    if INT_BITS[wire] == 8:
+        return list(range(lo, hi + 1))
+    mid = (lo + hi + 1) // 2
+    out = []
+    for v in [lo, lo + 1, mid - 1, mid, mid + 1, hi - 1, hi] + small_int_alphabet(wire):
+        if lo <= v <= hi and v not in out:
+            out.append(v)
+    return out
+
+
 def prim_wire(spec: se.SerializablePrimitive) -> str:
     return ins.prim_wire(spec)
 
@@ -312,7 +324,25 @@ class Domain:
     def _encoded_coord(self, spec, ctx) -> List[Variant]:
         per = [self.variants(s, ctx) for s in priv(spec, "_elem_specs", "spec-seq")]
         n = max(len(p) for p in per)
-        return [(tuple(p[(k + i) % len(p)][0] for i, p in enumerate(per)), f"qvec{k}") for k in range(n)]
+        out = [(tuple(p[(k + i) % len(p)][0] for i, p in enumerate(per)), f"qvec{k}") for k in range(n)]
+        # one component at a time, wire-first: every element gets the raw alphabet {min, min+1, mid-1, mid, mid+1, max-1,
+        # max} (mid-1 / mid are the two zero-point raws of a zero-median code) + the small alphabet; 8-bit elements the
+        # complete byte.  The tag carries the element's wire type so the payload can also be spliced at byte level
+        # (component_raws / props: wire-first tier 1).
+        elems = priv(spec, "_elem_specs", "spec-seq")
+        wire = prim_wire(spec.ELEM_SPEC)
+        lo, hi = int_range(wire)
+        mid = struct.pack(INT_FMT[wire], (lo + hi + 1) // 2)
+        # two bases: the lowest raw everywhere (= first row above) and the mid-range raw everywhere (small magnitudes, so
+        # derived quantities such as a quaternion's real part are exercised on both sides)
+        bases = [("", out[0][0]), ("m.", tuple(self._leaf_decode(es, mid) for es in elems))]
+        out.append((bases[1][1], "m.base"))
+        for pre, base in bases:
+            for i, es in enumerate(elems):
+                for r in component_raws(wire):
+                    v = self._leaf_decode(es, struct.pack(INT_FMT[wire], r))
+                    out.append((base[:i] + (v,) + base[i + 1:], f"{pre}c{i}:{wire}.raw={r}"))
+        return out
 
     def _v_BytesFixed(self, spec, ctx):
         n = spec.calc_size()
